@@ -16,9 +16,9 @@ import (
 	"github.com/attestantio/go-eth2-client/spec/altair"
 	"github.com/attestantio/go-eth2-client/spec/bellatrix"
 	"github.com/attestantio/go-eth2-client/spec/phase0"
-	"github.com/prysmaticlabs/go-bitfield"
 	nullmetrics "github.com/attestantio/vouch/services/metrics/null"
 	signer "github.com/attestantio/vouch/services/signer/standard"
+	"github.com/prysmaticlabs/go-bitfield"
 	"github.com/rs/zerolog"
 	e2wtypes "github.com/wealdtech/go-eth2-wallet-types/v2"
 	"time"
@@ -34,9 +34,9 @@ func dom(name string, epoch uint64) phase0.Domain {
 }
 
 type caseRes struct {
-	bad   []string
-	fp    string
-	nsigs int
+	bad    []string
+	fp     string
+	nsigs  int
 	sample any
 }
 
@@ -127,7 +127,6 @@ func run(c *harness.Ctx) {
 	wg.Wait()
 	c.Case("storm", func() { storm(ctx, c, s, spe, plain) })
 }
-
 
 // storm: many goroutines issue single-account requests through the local-signing path at once; signatures are
 // collected and verified afterwards, so that the signing calls themselves overlap as tightly as possible.
@@ -387,12 +386,12 @@ func oneRequest(ctx context.Context, s *signer.Service, r *rand.Rand, spe uint64
 
 func main() {
 	harness.Main(&harness.Spec{
-		Property: "C06",
-		Level:    "exploration",
-		Rule:     "random requests of the ten signing kinds (random messages, slots across epoch/domain boundaries incl. last slot of an epoch, batches of 1-12 accounts in random order, wallet-like all-plain or dirk-like ordinary/distributed multi-signer mixtures, single requests over plain/protecting/multi/distributed accounts) issued concurrently by 8 goroutines against one long-lived signer per batch; every returned signature BLS-verified against an independently merkleised signing root with the domain of the expected (type, epoch); distinct = (kind, account-kind pattern of the batch | account kind and epoch class)",
-		Batches:  func(string) int { return 3 },
-		Parallel: 3,
-		Run:      run,
+		Property:    "C06",
+		Level:       "exploration",
+		Rule:        "random requests of the ten signing kinds (random messages, slots across epoch/domain boundaries incl. last slot of an epoch, batches of 1-12 accounts in random order, wallet-like all-plain or dirk-like ordinary/distributed multi-signer mixtures, single requests over plain/protecting/multi/distributed accounts) issued concurrently by 8 goroutines against one long-lived signer per batch; every returned signature BLS-verified against an independently merkleised signing root with the domain of the expected (type, epoch); distinct = (kind, account-kind pattern of the batch | account kind and epoch class)",
+		Batches:     func(string) int { return 3 },
+		Parallel:    3,
+		Run:         run,
 		MinDistinct: 100,
 		Assumptions: []string{"herumi BLS (go-eth2-types) verification is trusted", "the fake domain provider returns a distinct domain per (type, epoch) so a wrong type or epoch fails verification", "all contributions of one batch share one slot, as in production"},
 	})
